@@ -49,8 +49,14 @@ func resultStored(ret *ssa.Return, i int) ssa.Value {
 
 func runC04(c *Ctx) {
 	m := c.Root()
-	r := c.R
 	c04AtomicOnly(c, m)
+	c04Publication(c, m, "C04")
+}
+
+// c04Publication: the publication discipline of newCounter (also claimed, under C10's
+// names, for "several writers read back exactly what was written").
+func c04Publication(c *Ctx, m *Module, pfx string) {
+	r := c.R
 	nc := m.Func("internal/counter", "mappedFile.newCounter")
 
 	// identify the actors
@@ -74,13 +80,13 @@ func runC04(c *Ctx) {
 		wr = cs.(*ssa.Call)
 	}
 	okActors := resCAS != nil && linkCAS != nil && wr != nil
-	r.Check("C04.reserve-write-link", "newCounter/reservation CAS, record write and link CAS exist", m.Pos(nc.Pos()), okActors, "expected cas32(limit…), writeEntryAt, cas32(head…)")
+	r.Check(pfx+".reserve-write-link", "newCounter/reservation CAS, record write and link CAS exist", m.Pos(nc.Pos()), okActors, "expected cas32(limit…), writeEntryAt, cas32(head…)")
 	if !okActors {
 		return
 	}
 	// order: EVERY record write is behind a successful reservation, EVERY head CAS behind a successful write
 	for i, cs := range callsIn(nc, "(*internal/counter.mappedFile).writeEntryAt") {
-		r.Check("C04.reserve-write-link", fmt.Sprintf("newCounter/record write #%d only after the reservation succeeded", i+1), m.Pos(cs.Pos()), hasFact(factsAt(cs), func(f Fact) bool { return f.Cond == ssa.Value(resCAS) && f.Pol }),
+		r.Check(pfx+".reserve-write-link", fmt.Sprintf("newCounter/record write #%d only after the reservation succeeded", i+1), m.Pos(cs.Pos()), hasFact(factsAt(cs), func(f Fact) bool { return f.Cond == ssa.Value(resCAS) && f.Pol }),
 			"writeEntryAt must be dominated by a successful cas32 on the limit word (space is reserved before it is written)")
 	}
 	nLink := 0
@@ -93,13 +99,13 @@ func runC04(c *Ctx) {
 			e, ok := f.Cond.(*ssa.Extract)
 			return ok && e.Tuple == ssa.Value(wr) && e.Index == 2 && f.Pol
 		})
-		r.Check("C04.reserve-write-link", fmt.Sprintf("newCounter/link CAS #%d only after the record was written", nLink), m.Pos(cs.Pos()), okWrittenFirst, "a head CAS must come after a successful writeEntryAt (a reader following the chain must find a complete record)")
+		r.Check(pfx+".reserve-write-link", fmt.Sprintf("newCounter/link CAS #%d only after the record was written", nLink), m.Pos(cs.Pos()), okWrittenFirst, "a head CAS must come after a successful writeEntryAt (a reader following the chain must find a complete record)")
 	}
 	// the link installs `start` (the offset written) expecting `head`
 	la := linkCAS.Call.Args
-	r.Check("C04.reserve-write-link", "newCounter/link installs the written record's offset", m.Pos(linkCAS.Pos()), la[3] == wr.Call.Args[1] || describe(la[3]) == describe(wr.Call.Args[1]),
+	r.Check(pfx+".reserve-write-link", "newCounter/link installs the written record's offset", m.Pos(linkCAS.Pos()), la[3] == wr.Call.Args[1] || describe(la[3]) == describe(wr.Call.Args[1]),
 		"cas32(headOff, head, start) with the start passed to writeEntryAt; got "+describe(la[3])+" vs "+describe(wr.Call.Args[1]))
-	r.Check("C04.reserve-write-link", "newCounter/record written at the reserved start", m.Pos(wr.Pos()), strings.HasSuffix(describe(wr.Call.Args[1]), ").place("+describePlaceArgs(resCAS)+")#0") || samePlace(wr.Call.Args[1], resCAS.Call.Args[3]),
+	r.Check(pfx+".reserve-write-link", "newCounter/record written at the reserved start", m.Pos(wr.Pos()), strings.HasSuffix(describe(wr.Call.Args[1]), ").place("+describePlaceArgs(resCAS)+")#0") || samePlace(wr.Call.Args[1], resCAS.Call.Args[3]),
 		"the offset written is place()'s start whose end was CASed into the limit")
 	// next.Store(head) right before each link attempt, same head
 	var nextStore *ssa.Call
@@ -112,7 +118,7 @@ func runC04(c *Ctx) {
 		}
 	}
 	okNext := nextStore != nil && nextStore.Call.Args[1] == la[2]
-	r.Check("C04.reserve-write-link", "newCounter/each link attempt first points the record at the expected head", m.Pos(linkCAS.Pos()), okNext,
+	r.Check(pfx+".reserve-write-link", "newCounter/each link attempt first points the record at the expected head", m.Pos(linkCAS.Pos()), okNext,
 		"in the same iteration as cas32(headOff, head, start), next.Store(head) must run first with the same head value (hoisting it out of the retry loop links the record in front of a stale chain)")
 	// the head retried is re-read from the bucket
 	if phi, ok := la[2].(*ssa.Phi); ok {
@@ -124,7 +130,7 @@ func runC04(c *Ctx) {
 				}
 			}
 		}
-		r.Check("C04.reserve-write-link", "newCounter/retry uses the freshly loaded head", m.Pos(linkCAS.Pos()), okReload, "after a failed link the expected head must be re-read from the bucket word")
+		r.Check(pfx+".reserve-write-link", "newCounter/retry uses the freshly loaded head", m.Pos(linkCAS.Pos()), okReload, "after a failed link the expected head must be re-read from the bucket word")
 	}
 
 	// ---- duplicate check ---------------------------------------------------------
@@ -132,7 +138,7 @@ func runC04(c *Ctx) {
 	for _, cs := range callsIn(nc, "(*internal/counter.mappedFile).entryAt") {
 		walkEntry = cs.(*ssa.Call)
 	}
-	r.Check("C04.duplicate-check", "newCounter/walks the new chain elements after a lost race", m.Pos(nc.Pos()), walkEntry != nil && hasFact(factsAt(walkEntry), func(f Fact) bool { return f.Cond == ssa.Value(linkCAS) && !f.Pol }),
+	r.Check(pfx+".duplicate-check", "newCounter/walks the new chain elements after a lost race", m.Pos(nc.Pos()), walkEntry != nil && hasFact(factsAt(walkEntry), func(f Fact) bool { return f.Cond == ssa.Value(linkCAS) && !f.Pol }),
 		"after a failed link CAS the records prepended meanwhile must be inspected")
 	if walkEntry != nil {
 		nMatch := 0
@@ -159,7 +165,7 @@ func runC04(c *Ctx) {
 			if e, ok := v.(*ssa.Extract); ok && e.Tuple == ssa.Value(walkEntry) && e.Index == 2 {
 				okV = true
 			}
-			r.Check("C04.duplicate-check", "newCounter/returns the existing record on a name match", m.Pos(ret.Pos()), okV,
+			r.Check(pfx+".duplicate-check", "newCounter/returns the existing record on a name match", m.Pos(ret.Pos()), okV,
 				"when another writer linked the same name first, the value returned must be THAT record's (entryAt's v), not our unlinked one; returns "+describe(v))
 			dead := false
 			for _, in := range b.Instrs {
@@ -171,10 +177,10 @@ func runC04(c *Ctx) {
 					}
 				}
 			}
-			r.Check("C04.duplicate-check", "newCounter/own record marked dead on a name match", m.Pos(ret.Pos()), dead, "next.Store(^0) on our record")
-			r.Check("C04.duplicate-check", "newCounter/no error and no remap reported on a name match", m.Pos(ret.Pos()), isNilConst(resultStored(ret, 2)), "err must be nil")
+			r.Check(pfx+".duplicate-check", "newCounter/own record marked dead on a name match", m.Pos(ret.Pos()), dead, "next.Store(^0) on our record")
+			r.Check(pfx+".duplicate-check", "newCounter/no error and no remap reported on a name match", m.Pos(ret.Pos()), isNilConst(resultStored(ret, 2)), "err must be nil")
 		}
-		r.Check("C04.duplicate-check", "newCounter/has the name-match exit", m.Pos(nc.Pos()), nMatch == 1, fmt.Sprintf("%d", nMatch))
+		r.Check(pfx+".duplicate-check", "newCounter/has the name-match exit", m.Pos(nc.Pos()), nMatch == 1, fmt.Sprintf("%d", nMatch))
 		// success return after the link CAS returns our v
 		for _, b := range nc.Blocks {
 			ret, ok := b.Instrs[len(b.Instrs)-1].(*ssa.Return)
@@ -194,19 +200,19 @@ func runC04(c *Ctx) {
 			if e, ok := v.(*ssa.Extract); ok && e.Tuple == ssa.Value(wr) && e.Index == 1 {
 				okOwn = true
 			}
-			r.Check("C04.duplicate-check", "newCounter/returns the new record after a successful link", m.Pos(ret.Pos()), okOwn, "after linking, the value is writeEntryAt's v")
+			r.Check(pfx+".duplicate-check", "newCounter/returns the new record after a successful link", m.Pos(ret.Pos()), okOwn, "after linking, the value is writeEntryAt's v")
 		}
 	}
 
 	// ---- value add ------------------------------------------------------------------
 	add := m.Func("internal/counter", "Counter.add")
 	okCAS := len(callsIn(add, "(*sync/atomic.Uint64).CompareAndSwap")) == 1 && len(callsIn(add, "(*sync/atomic.Uint64).Load")) == 1
-	r.Check("C04.value-add", "Counter.add/load-CAS loop", m.Pos(add.Pos()), okCAS, "the mapped value changes only by CompareAndSwap of a freshly loaded value")
+	r.Check(pfx+".value-add", "Counter.add/load-CAS loop", m.Pos(add.Pos()), okCAS, "the mapped value changes only by CompareAndSwap of a freshly loaded value")
 	for _, fn := range m.PkgFuncs("internal/counter") {
 		for _, cs := range callsIn(fn, "(*sync/atomic.Uint64).Store", "(*sync/atomic.Uint64).Add", "(*sync/atomic.Uint64).Swap", "sync/atomic.StoreUint64", "sync/atomic.AddUint64") {
 			d := describe(cs.Common().Args[0])
 			mapped := strings.Contains(d, ".count") || strings.Contains(d, "entryAt") || strings.Contains(d, "mapping.Data")
-			r.Check("C04.value-add", "blind store/add to a 64-bit atomic in "+fname(fn), m.Pos(cs.Pos()), !mapped, "counter values must only be CASed (saturating add); got "+calleeName(cs.Common())+" on "+d)
+			r.Check(pfx+".value-add", "blind store/add to a 64-bit atomic in "+fname(fn), m.Pos(cs.Pos()), !mapped, "counter values must only be CASed (saturating add); got "+calleeName(cs.Common())+" on "+d)
 		}
 	}
 	// saturation in add: sum < old ⇒ max
@@ -220,11 +226,13 @@ func runC04(c *Ctx) {
 			}
 		}
 	}
-	r.Check("C04.value-add", "Counter.add/saturates instead of wrapping", m.Pos(add.Pos()), okSat, "on overflow the value written is ^uint64(0)")
+	r.Check(pfx+".value-add", "Counter.add/saturates instead of wrapping", m.Pos(add.Pos()), okSat, "on overflow the value written is ^uint64(0)")
 
-	c10ExtendTail(c, m, "C04.extend-tail")
-	c10Limit(c, m, "C04.single-writer-of-limit")
-	c04Growth(c, m, nc, walkEntry)
+	if pfx == "C04" {
+		c10ExtendTail(c, m, "C04.extend-tail")
+		c10Limit(c, m, "C04.single-writer-of-limit")
+		c04Growth(c, m, nc, walkEntry)
+	}
 }
 
 func describePlaceArgs(*ssa.Call) string { return "\x00" }
